@@ -70,7 +70,7 @@ class AddPrefixEntry(Contract):
     target = f"{FP}._add_prefix"
     properties = ("C06", "C07")
     ctx_class = FPCtx
-    assumptions = ("per-entry contract lifted to whole mappings by the pointwise-map rule (no state carried between entries)",
+    assumptions = ("per-entry contract lifted to whole mappings by the pointwise-map rule (no state carried between entries; Lean: pointwise_map in /verif/lean/Meta.lean, re-checked in the thorough tier)",
                    "z3 string theory for `in`, split('.', 1)[0], startswith, concatenation")
 
     def cases(self):
